@@ -55,7 +55,11 @@ func genC11(seed uint64, tier string) *Scenario {
 	for i := 0; i < n; i++ {
 		acct := uint64(r.Intn(2))
 		v := uint64(r.Intn(len(catalogue)))
-		switch x := r.Intn(20); {
+		switch x := r.Intn(21); {
+		case x == 20:
+			// a NEW key (another slot, or another type at the same place) registered under the
+			// name that sibling v already owns: the first registration keeps the name
+			sc.Ops = append(sc.Ops, Op{K: "shadow", N: []uint64{acct, v, uint64(r.Intn(4))}})
 		case x < 7:
 			sc.Ops = append(sc.Ops, Op{K: "reg", N: []uint64{acct, v}})
 		case x == 7:
@@ -165,6 +169,27 @@ func c11Run(sc *Scenario, st *Stats) []Violation {
 			st.Probes["re-registrations-under-another-name"]++
 			if err := tr.SaveStateKey(addr(c11Accounts[a]), parent, uint256.NewInt(cv.slot), uint256.NewInt(cv.offset), common.BytesToHash([]byte(cv.typ)), ptid, []byte(catalogue[w].name)); err != nil {
 				add(step, "C11.register", "reregistration-refused", "re-registration of existing key %s was refused: %v", cv.name, err)
+			}
+		case "shadow":
+			a, v, j := op.N[0], int(op.N[1]), op.N[2]
+			cv := catalogue[v]
+			if !get(a, uint64(v)).registered {
+				break // the name must already be owned by v
+			}
+			var parent *uint256.Int
+			var ptid common.Hash
+			if cv.parent >= 0 {
+				parent = uint256.NewInt(catalogue[cv.parent].slot)
+				ptid = common.BytesToHash([]byte(catalogue[cv.parent].typ))
+			}
+			// j even: same (slot, offset), a type nobody else uses; j odd: a slot nobody else uses
+			sslot, styp := cv.slot, fmt.Sprintf("shadow%d", j)
+			if j%2 == 1 {
+				sslot, styp = 700+uint64(v)*4+j, cv.typ
+			}
+			st.Probes["new-keys-under-an-owned-name"]++
+			if err := tr.SaveStateKey(addr(c11Accounts[a]), parent, uint256.NewInt(sslot), uint256.NewInt(cv.offset), common.BytesToHash([]byte(styp)), ptid, []byte(cv.name)); err != nil {
+				add(step, "C11.register", "refused", "registration of a new key (slot %d type %s) under the registered parent of %s was refused: %v", sslot, styp, cv.name, err)
 			}
 		case "reg":
 			a, v := op.N[0], int(op.N[1])
